@@ -33,7 +33,9 @@ def _judge_op(rig, op, pin, before, ret, exc, dropped):
             out.append(("api:m5-rejected-by-conformant-accessory", det))
     else:
         if (3, "accepted") in new:
-            out.append(("harness:wrong-code-accepted-by-reference", det))
+            # the accessory (an SRP implementation of its own, holding the verifier of the RIGHT code) found the proof in order although the
+            # caller typed another code: the proof was not computed from what was typed (state shared between attempts, a memo keyed too coarsely)
+            out.append(("api:proof-sent-for-a-wrong-code-is-accepted-by-the-accessory", det))
     # (2) what comes back
     if ret is not None:
         if not right:
